@@ -138,8 +138,7 @@ class ExpressionToken(RecursiveCompositeBaseToken):
 
     @property
     def right_brackets(self) -> bool:
-        return self.value[0].__class__ in [OneOperandArithmeticOperatorToken, BracketStartToken] and len(
-            self.value) in [2, 3]
+        return self.value[0].__class__ is BracketStartToken and len(self.value) == 3
 
     @property
     def operator(self):
